@@ -243,3 +243,38 @@ def dict_items(eng, st, args, kwargs, line):
 @model("numpy.dtype")
 def np_dtype(eng, st, args, kwargs, line):
     return val(st, VDtype(dtype_of(eng, args[0])))
+
+
+@model("arrmethod.reshape")
+def arr_reshape(eng, st, args, kwargs, line):
+    eng.assume_tag("A-NP")
+    a = args[0]
+    dims = args[1:]
+    if len(dims) == 1 and isinstance(dims[0], (VTuple, VList)):
+        dims = dims[0].items
+    if not isinstance(a, VArr) or len(dims) != 2 or smt.conc_int(a.stride) != 1:
+        raise OutOfSubset(f"line {line}: reshape form")
+    n0, n1 = (eng.to_int(d, line) for d in dims)
+    eng.oblig(st, f"shape@{line}", smt.som(n0 * n1) == a.n, line, label="reshape size (ValueError)")
+    st.assume(smt.som(n0 * n1) == a.n)
+    return val(st, VArr2(a.obj, a.off, n1, z3.IntVal(1), n0, n1))
+
+
+@model("arrmethod.transpose")
+def arr_transpose(eng, st, args, kwargs, line):
+    a = args[0]
+    if isinstance(a, VArr2) and len(args) == 1:
+        return val(st, VArr2(a.obj, a.off, a.s1, a.s0, a.n1, a.n0))
+    raise OutOfSubset(f"line {line}: transpose form")
+
+
+@model("arrmethod.ravel")
+def arr_ravel(eng, st, args, kwargs, line):
+    a = args[0]
+    if isinstance(a, VArr) and smt.conc_int(a.stride) == 1:
+        return val(st, a)
+    if isinstance(a, VArr):
+        raise OutOfSubset(f"line {line}: ravel of a strided view (copy)")
+    if isinstance(a, VArr2) and smt.conc_int(a.s1) == 1 and eng.entails(st, a.s0 == a.n1):
+        return val(st, VArr(a.obj, a.off, z3.IntVal(1), smt.som(a.n0 * a.n1)))
+    raise OutOfSubset(f"line {line}: ravel of a non-contiguous 2-D view (copy)")
